@@ -115,13 +115,49 @@ def windows_of_arrays(begins_lengths):
 # the world: real devices + real HardwareSetup
 # ---------------------------------------------------------------------------------------------
 
+_FAULTY = {}
+
+
+def faulty_classes():
+    """the shipped dummies with fault injection, as real drivers may behave: `fault` 1 = `remove` raises
+    RuntimeError, 2 = `arm` raises RuntimeError (AWG); non-zero = `delete_program` raises (DAC)"""
+    if not _FAULTY:
+        _, _, _, _, DummyAWG, DummyDAC = _imports()
+
+        class FaultyAWG(DummyAWG):
+            fault = 0
+
+            def remove(self, name):
+                if self.fault == 1:
+                    raise RuntimeError('device busy: cannot remove %r' % (name,))
+                super().remove(name)
+
+            def arm(self, name):
+                if self.fault == 2:
+                    raise RuntimeError('device busy: cannot arm %r' % (name,))
+                super().arm(name)
+
+        class FaultyDAC(DummyDAC):
+            fault = 0
+
+            def delete_program(self, program_name):
+                if self.fault:
+                    raise RuntimeError('device busy: cannot delete %r' % (program_name,))
+                super().delete_program(program_name)
+
+        _FAULTY['awg'], _FAULTY['dac'] = FaultyAWG, FaultyDAC
+    return _FAULTY['awg'], _FAULTY['dac']
+
+
 class World:
     def __init__(self, cfg, ndacs):
         HardwareSetup, PlaybackChannel, MarkerChannel, MeasurementMask, DummyAWG, DummyDAC = _imports()
+        FaultyAWG, FaultyDAC = faulty_classes()
         self.cfg = [tuple(c) for c in cfg]
         self.ndacs = ndacs
-        self.awgs = [DummyAWG(num_channels=c, num_markers=m) for c, m in self.cfg]
-        self.dacs = [DummyDAC() for _ in range(ndacs)]
+        self.awgs = [FaultyAWG(num_channels=c, num_markers=m) for c, m in self.cfg]
+        self.dacs = [FaultyDAC() for _ in range(ndacs)]
+        self.last_loop = {}         # program name number -> (Loop object, update) of the last ok registration
         self.hs = HardwareSetup()
         self.trafos = {}            # trafo number -> callable
         self.trafo_of = {}          # id(callable) -> number
@@ -192,11 +228,23 @@ class World:
                     self.hs.set_measurement(meas_name(m), self.mask(*mk), allow_multiple_registration=allow)
                 elif kind == 'rm-channel':
                     self.hs.rm_channel(ch_name(op[1]))
-                elif kind == 'register':
-                    _, n, pspec, cb_ok, update, override = op
-                    channels, meas, shape = pspec
-                    loop = build_program(tuple(channels), tuple((m, tuple(w)) for m, w in meas), shape)
-                    pid = len(self.progs)
+                elif kind in ('set-fault-awg', 'set-fault-dac'):
+                    (self.awgs if kind == 'set-fault-awg' else self.dacs)[op[1]].fault = op[2]
+                elif kind in ('register', 'register-same'):
+                    if kind == 'register-same':
+                        # the very Loop object of the last registration under this name again (its measurements were
+                        # dropped by that registration: its own windows are what it carries now)
+                        _, n, cb_ok, update = op
+                        override = None
+                        if n not in self.last_loop:
+                            return ('remove', 99), 'ok'          # nothing to re-register: a no-op both sides know
+                        loop = self.last_loop[n]
+                        pid = self.pid_of[id(loop)]
+                    else:
+                        _, n, pspec, cb_ok, update, override = op
+                        channels, meas, shape = pspec
+                        loop = build_program(tuple(channels), tuple((m, tuple(w)) for m, w in meas), shape)
+                        pid = len(self.progs)
                     own = own_windows(loop)
                     chans = sorted(self.unk.idx('ch', c) for c in
                                    next(loop.get_depth_first_iterator()).waveform.defined_channels)
@@ -219,6 +267,7 @@ class World:
                                              **kwargs)
                     self.reg_meas[n] = (dict((m, tuple(sorted(ws))) for m, ws in override)
                                         if override is not None else own)
+                    self.last_loop[n] = loop
                 elif kind == 'remove':
                     self.hs.remove_program(prog_name(op[1]))
                 elif kind == 'clear':
@@ -243,21 +292,27 @@ class World:
             return line, ('error', 'key_error')
         except ValueError:
             return line, ('error', 'value_error')
+        except RuntimeError:
+            return line, ('error', 'runtime_error')
         except Exception as e:  # noqa
             return line, ('error', 'other:' + type(e).__name__)
 
     def rewires(self, op):
-        """does `op` change the wiring of a name that a registered program uses (twin of QP.C18.rewires)"""
+        """does `op` change the wiring of a name that a registered program uses (twin of QP.C18.rewires)?
+        Returns the program name numbers whose registration becomes stale, or 'fault' for fault injection."""
+        stale = set()
         if op[0] in ('set-channel', 'set-channel-single', 'rm-channel'):
-            for rp in self.hs._registered_programs.values():
+            for n, rp in self.hs._registered_programs.items():
                 pid = self.pid_of.get(id(rp.program))
                 if pid is not None and op[1] in self.progs[pid]['channels']:
-                    return True
+                    stale.add(self.unk.idx('p', n))
         elif op[0] in ('set-measurement', 'set-measurement-single'):
-            for rp in self.hs._registered_programs.values():
+            for n, rp in self.hs._registered_programs.items():
                 if meas_name(op[1]) in rp.measurement_windows:
-                    return True
-        return False
+                    stale.add(self.unk.idx('p', n))
+        elif op[0] in ('set-fault-awg', 'set-fault-dac'):
+            return 'fault'
+        return stale
 
     # -- observation -------------------------------------------------------------------------
     def _awg_idx(self, awg):
@@ -319,14 +374,15 @@ class World:
                     tuple(self._opt_ch(c) for c in channels),
                     tuple(self._opt_ch(c) for c in markers),
                     tuple(None if t is None else self.trafo_of.get(id(t), 900) for t in trafos))
-            awgs.append((a.num_channels, a.num_markers, self._name(a._armed), tuple(sorted(progs.items()))))
+            awgs.append((a.num_channels, a.num_markers, self._name(a._armed), tuple(sorted(progs.items())),
+                         int(getattr(a, 'fault', 0))))
         dacs = []
         for d in self.dacs:
             progs = {}
             for n, windows in d._measurement_windows.items():
                 progs[self.unk.idx('p', n)] = tuple(sorted(
                     (self.unk.idx('K', k), windows_of_arrays(bl)) for k, bl in windows.items()))
-            dacs.append((self._name(d._armed_program), tuple(sorted(progs.items()))))
+            dacs.append((self._name(d._armed_program), tuple(sorted(progs.items())), int(getattr(d, 'fault', 0))))
         c, m, a, d = tuple(sorted(chmap.items())), tuple(sorted(measmap.items())), tuple(awgs), tuple(dacs)
         return (c, m, tuple(sorted(reg.items())), a, d), (c, m, tuple(sorted(jreg.items())), a, d)
 
@@ -351,10 +407,10 @@ def state_sx(st):
             [[n, [pid, list(chans), [[m, _wins(ws)] for m, ws in meas], list(ra), list(rd)]]
              for n, (pid, chans, meas, ra, rd) in reg],
             [[nch, nmk, _opt(armed), [[n, [pid, [_opt(c) for c in chs], [_opt(c) for c in mks],
-                                           [_opt(t) for t in tfs]]] for n, (pid, chs, mks, tfs) in progs]]
-             for nch, nmk, armed, progs in awgs],
-            [[_opt(armed), [[n, [[k, _wins(ws)] for k, ws in masks]] for n, masks in progs]]
-             for armed, progs in dacs]]
+                                           [_opt(t) for t in tfs]]] for n, (pid, chs, mks, tfs) in progs], fault]
+             for nch, nmk, armed, progs, fault in awgs],
+            [[_opt(armed), [[n, [[k, _wins(ws)] for k, ws in masks]] for n, masks in progs], fault]
+             for armed, progs, fault in dacs]]
 
 
 def _n(x):
@@ -378,12 +434,12 @@ def state_of_sx(s):
                      for n, v in reg))
     a = tuple((int(nch), int(nmk), _n(armed),
                tuple(sorted((int(n), (int(u[0]), tuple(_n(x) for x in u[1]), tuple(_n(x) for x in u[2]),
-                                      tuple(_n(x) for x in u[3]))) for n, u in progs)))
-              for nch, nmk, armed, progs in awgs)
+                                      tuple(_n(x) for x in u[3]))) for n, u in progs)), int(fault))
+              for nch, nmk, armed, progs, fault in awgs)
     d = tuple((_n(armed), tuple(sorted((int(n), tuple(sorted(dict((int(k), _pwins(ws)) for k, ws in
                                                               reversed(masks)).items())))
-                                       for n, masks in progs)))
-              for armed, progs in dacs)
+                                       for n, masks in progs)), int(fault))
+              for armed, progs, fault in dacs)
     return (c, m, r, a, d)
 
 
@@ -429,10 +485,10 @@ def mask_names(st, names):
     if not names:
         return st
     chmap, measmap, reg, awgs, dacs = st
-    awgs2 = tuple((nch, nmk, armed, tuple((n, (u[0], '*', '*', '*') if n in names else u) for n, u in progs))
-                  for nch, nmk, armed, progs in awgs)
-    dacs2 = tuple((armed, tuple((n, tuple((k, '*') for k, _ in w) if n in names else w) for n, w in progs))
-                  for armed, progs in dacs)
+    awgs2 = tuple((nch, nmk, armed, tuple((n, (u[0], '*', '*', '*') if n in names else u) for n, u in progs), f)
+                  for nch, nmk, armed, progs, f in awgs)
+    dacs2 = tuple((armed, tuple((n, tuple((k, '*') for k, _ in w) if n in names else w) for n, w in progs), f)
+                  for armed, progs, f in dacs)
     return (chmap, measmap, reg, awgs2, dacs2)
 
 
@@ -449,11 +505,21 @@ def execute(cfg, ndacs, ops, gen=None, skip=0):
     it = iter(ops) if gen is None else gen(w)
     prev, init_j = w.state_pair()
     rewired = False
+    stale, faulted = set(), False       # registrations made under a wiring that has changed since / refusing devices
     for op in it:
         done_ops.append(op)
         rw = w.rewires(op)
         line, res = w.apply(op)
-        rewired = rewired or (rw and res == 'ok')
+        rewired = rewired or (bool(rw) and res == 'ok')
+        if res == 'ok':
+            if rw == 'fault':
+                faulted = True
+            elif rw:
+                stale |= rw
+            elif line[0] in ('register', 'remove'):
+                stale.discard(line[1])
+            elif line[0] == 'clear':
+                stale.clear()
         if len(steps) < skip:
             # shared set-up prefix, observed and checked by the history that consists of the prefix alone
             steps.append({'line': line, 'res': res, 'state': None, 'prev': None, 'jstate': None, 'rewired': rewired})
@@ -461,16 +527,17 @@ def execute(cfg, ndacs, ops, gen=None, skip=0):
                 prev, init_j = w.state_pair()
             continue
         st, jst = w.state_pair()
-        step = {'line': line, 'res': res, 'state': st, 'prev': prev, 'rewired': rewired}
+        step = {'line': line, 'res': res, 'state': st, 'prev': prev, 'rewired': rewired,
+                'stale': bool(stale) or faulted}
         if res == 'ok':
             step['jstate'] = jst
-            if op[0] == 'register':
+            if line[0] == 'register':
                 pid = line[2][1]
                 own = w.reg_meas.get(op[1], {})
                 step['conflict'] = has_conflict(st, w.progs[pid]['channels'], list(own))
         steps.append(step)
         prev = st
-        if res != 'ok' and res[1] in ('program_overwrite',) or (res != 'ok' and res[1].startswith('other:')):
+        if res != 'ok' and (res[1] in ('program_overwrite', 'runtime_error') or res[1].startswith('other:')):
             break      # the call may have left a half-done upload behind: the history ends here
     return {'cfg': [list(c) for c in cfg], 'ndacs': ndacs, 'ops': done_ops, 'steps': steps, 'skip': skip,
             'init_jstate': init_j}
@@ -490,13 +557,13 @@ def lean_lines(h, fix=True):
         if s['res'] != 'ok' or i < skip:
             continue
         js = state_sx(s['jstate'])
+        # the routing invariant speaks about the current wiring and obeying devices; its verdict counts wherever the
+        # model's own state satisfies it (always before a re-wiring / fault, and again once every affected program
+        # has been re-registered); the wiring-independent record invariant counts everywhere
+        judges.append((i, 'inv', sx(['c18', 'judge', js])))
         if s.get('rewired'):
-            # the routing invariant speaks about the current wiring; after a re-wiring of a name in use only the
-            # wiring-independent part is judged: nothing is held outside the registration records
             judges.append((i, 'rec', sx(['c18', 'judge-rec', js])))
-        else:
-            judges.append((i, 'inv', sx(['c18', 'judge', js])))
-        if op[0] in ('arm', 'run') and not s.get('rewired'):
+        if op[0] in ('arm', 'run'):
             judges.append((i, 'arm', sx(['c18', 'judge-arm', state_sx(last_j), op[1], js])))
         elif op[0] == 'remove':
             judges.append((i, 'gone', sx(['c18', 'judge-gone', js, op[1]])))
@@ -531,7 +598,7 @@ def evaluate(ctx, histories, label, fix=True, register_cases=True, compare=True)
         skip = h.get('skip', 0)
         if trace[0] != 'trace' or len(trace) - 1 != len(h['steps']) - skip:
             raise core.MachineryError('model did not accept history: %r' % (trace[:3],))
-        judging = True
+        prev_inv = True        # does the model's state before the current call satisfy the routing invariant
         masked = set()
         in_sync = True
         verdicts = {}
@@ -553,33 +620,45 @@ def evaluate(ctx, histories, label, fix=True, register_cases=True, compare=True)
                 ctx.count('%s:%s:%s' % (label, op[0], s['res'] if s['res'] == 'ok' else s['res'][1]))
             m_ok = t[0] == 'ok'
             rewire = (t[1] if m_ok else t[2]) == 'true'
+            # inside the routing statement: the model's own state satisfies the invariant AND every registration was
+            # made under the wiring in force (two names on one output make the model's state order dependent)
+            model_inv = ((t[3] == 'true') if m_ok else prev_inv) and not s.get('stale')
             # -- judge the implementation's state -------------------------------------------------
             if s['res'] == 'ok':
                 for kind, verdict in verdicts.get(i, []):
-                    if kind in ('inv', 'arm') and not (judging and not rewire):
-                        continue        # outside the statement: the wiring of a name in use was changed
-                    # 'gone' (after remove / clear) and 'rec' are judged on every device of the bench, wired or
-                    # not, re-wired history or not
+                    if kind == 'inv' and not model_inv:
+                        continue        # outside the routing statement (stale wiring of a name in use / refusing device)
+                    if kind == 'arm' and not (prev_inv and model_inv):
+                        continue
+                    # 'gone' (after remove / clear) and 'rec' are judged on every obeying device of the bench, wired
+                    # or not, in every history
                     if verdict != 'ok':
                         violations.append((hi, i, '%s after %s: %s' % (kind, describe(op), verdict)))
-            if s['res'] == 'ok' and rewire:
-                judging = False
                 if register_cases:
-                    ctx.count(label + ':rewired-history')
+                    if rewire:
+                        ctx.count(label + ':rewiring-or-fault-step')
+                    if s.get('rewired'):
+                        ctx.count(label + (':judged-inv-after-rewiring' if model_inv else ':judged-rec-only'))
+                if not s.get('rewired') and not model_inv and register_cases:
+                    ctx.count(label + ':MODEL-INV-FALSE-BEFORE-REWIRING')
+            if m_ok:
+                prev_inv = model_inv
             # -- correspondence ----------------------------------------------------------------------
             if not compare or not in_sync:
                 continue
             if s['res'] == 'ok' and m_ok:
+                # a refusing device may keep the (order dependent) entries of a conflicting registration for good
+                sticky = any(a[4] for a in s['state'][3]) or any(d[2] for d in s['state'][4])
                 if op[0] == 'register':
                     if s.get('conflict'):
                         masked.add(op[1])
                         if register_cases:
                             ctx.count(label + ':register-with-output-or-mask-conflict')
-                    else:
+                    elif not sticky:
                         masked.discard(op[1])
-                elif op[0] == 'remove':
+                elif op[0] == 'remove' and not sticky:
                     masked.discard(op[1])
-                elif op[0] == 'clear':
+                elif op[0] == 'clear' and not sticky:
                     masked.clear()
                 mst = state_of_sx(t[2])
                 if mask_names(s['state'], masked) != mask_names(mst, masked):
@@ -590,7 +669,7 @@ def evaluate(ctx, histories, label, fix=True, register_cases=True, compare=True)
             elif s['res'] != 'ok' and not m_ok:
                 if s['res'][1] != t[1]:
                     ctx.drift('HardwareSetup error class vs QP.C18.step', describe(op), s['res'][1], t[1])
-                if s['res'][1] not in ('program_overwrite',) and s['state'] != s['prev']:
+                if s['res'][1] not in ('program_overwrite', 'runtime_error') and s['state'] != s['prev']:
                     # the property is silent about raising calls: a correspondence difference, not a violation;
                     # the states after later normally-returning calls are still judged
                     ctx.drift('raising call changed the HardwareSetup state (the model leaves it alone)',
@@ -717,6 +796,14 @@ def history_generator(rng, cfg, ndacs, length, rewire_ok):
                     taken_m.add((d, k))
                     masks.append((d, k, d * 4 + k))      # one mask object per (dac, mask): oid = d*4+k
             yield ('set-measurement', m, False, masks)
+        faulty = rewire_ok == 3
+        if faulty:
+            # refusing devices: one or two devices raise RuntimeError on remove / arm / delete_program from here on
+            for _ in range(rng.choice([1, 1, 2])):
+                if rng.random() < 0.55:
+                    yield ('set-fault-awg', rng.randrange(len(cfg)), rng.choice([1, 1, 1, 2]))
+                else:
+                    yield ('set-fault-dac', rng.randrange(ndacs), 1)
         for _ in range(length):
             known_ch = {w.unk.idx('ch', c) for c in w.hs._channel_map}
             known_m = {w.unk.idx('m', m) for m in w.hs._measurement_map}
@@ -725,7 +812,12 @@ def history_generator(rng, cfg, ndacs, length, rewire_ok):
             r = rng.random()
             if sparse and r < 0.45:
                 r = 0.70 + r / 1.5           # un-wiring histories: twice as many wiring operations
-            if r < 0.40:
+            if faulty and 0.40 <= r < 0.45:
+                r = 0.45                 # more removals
+            if r < 0.40 and registered and rng.random() < (0.3 if rewire_ok in (1, 2) else 0.08):
+                # the very same Loop object again (e.g. to sync after a re-wiring)
+                yield ('register-same', rng.choice(registered), True, rng.random() < 0.9)
+            elif r < 0.40:
                 if registered and rng.random() < 0.55:
                     n = rng.choice(registered)              # re-registration, often with other channels
                 else:
@@ -812,7 +904,7 @@ EXH_ALPHABET = (
 
 
 # second exhaustive space: re-wiring between registration and removal / clearing.  Every device under one name.
-UNW_CFG = ([(1, 0), (1, 0)], 2)
+UNW_CFG = ([(2, 1), (1, 0)], 2)
 UNW_SETUP = [
     ('set-channel', 0, False, [('o', 0, PB, 0, 1)]),
     ('set-measurement', 0, False, [(0, 0, 0)]),
@@ -824,6 +916,8 @@ UNW_ALPHABET = [
     ('register', 1, _Q, True, True, None),
     ('set-channel', 0, False, [('o', 1, PB, 0, 2)]),       # channel 0 moves to the second generator
     ('set-channel', 0, True, [('o', 0, PB, 0, 1)]),        # ... and back
+    ('set-channel', 0, True, [('o', 0, PB, 1, 3), ('o', 0, MK, 0, 0)]),   # ... to other outputs of the first one
+    ('register-same', 0, True, True),                      # the same Loop object again, update=True
     ('rm-channel', 0),
     ('set-measurement', 0, False, [(1, 1, 5)]),            # measurement 0 moves to the second device
     ('remove', 0), ('remove', 1), ('clear',), ('arm', 0),
@@ -833,6 +927,24 @@ UNW_ALPHABET = [
 def unwiring_histories(length):
     for seq in itertools.product(UNW_ALPHABET, repeat=length):
         yield UNW_SETUP + list(seq)
+
+
+# third exhaustive space: refusing devices.  Wiring of the first space (a marker name on both generators, a
+# measurement on both acquisition devices), one device made to refuse, then registration / removal / clearing.
+FLT_ALPHABET = [
+    ('set-fault-awg', 0, 1), ('set-fault-awg', 1, 1), ('set-fault-awg', 0, 2),
+    ('set-fault-dac', 0, 1), ('set-fault-dac', 1, 1),
+    ('register', 0, EXH_PROGS['Z'], True, True, None),
+    ('register', 0, EXH_PROGS['M'], True, True, None),
+    ('register', 0, EXH_PROGS['Y'], True, True, None),
+    ('rm-channel', 2),
+    ('remove', 0), ('clear',),
+]
+
+
+def fault_histories(length):
+    for seq in itertools.product(FLT_ALPHABET, repeat=length):
+        yield EXH_SETUP + list(seq)
 
 
 def exhaustive_histories(length):
@@ -1035,7 +1147,7 @@ def random_jobs(rng, n, length):
     for i in range(n):
         seed = rng.getrandbits(64)
         cfg, ndacs = random_cfg(random.Random(seed))
-        jobs.append((seed, cfg, ndacs, length, 1 if i % 10 == 9 else 2 if i % 10 == 4 else 0))
+        jobs.append((seed, cfg, ndacs, length, 1 if i % 10 == 9 else 2 if i % 10 == 4 else 3 if i % 10 == 7 else 0))
     return jobs
 
 
@@ -1070,6 +1182,13 @@ def run(ctx: core.Ctx):
                                  'device (%d histories)' % (unw_len, len(UNW_ALPHABET), len(jobs) - 1))
     run_chunks(ctx, 'ops', jobs, 'unw', 1000)
 
+    # exhaustive fault scope (a refusing device among several participants)
+    flt_len = ctx.n(3, 4)
+    jobs = [(EXH_CFG[0], EXH_CFG[1], ops, len(EXH_SETUP)) for ops in fault_histories(flt_len)]
+    ctx.exhaustive_spaces.append('all histories of length %d over %d operations incl. fault injection on one of '
+                                 'several participating devices (%d histories)' % (flt_len, len(FLT_ALPHABET), len(jobs)))
+    run_chunks(ctx, 'ops', jobs, 'flt', 1000)
+
     # random histories
     run_chunks(ctx, 'random', random_jobs(ctx.fork('histories'), ctx.n(500, 20000), 25), 'rnd', 250,
                deadline=None if ctx.quick else 600)
@@ -1083,6 +1202,7 @@ def search(ctx):
     """model and implementation differ but no judged state violated the property: look further (judge only)"""
     jobs = [(EXH_CFG[0], EXH_CFG[1], ops, len(EXH_SETUP)) for ops in exhaustive_histories(3)]
     jobs += [(UNW_CFG[0], UNW_CFG[1], ops, len(UNW_SETUP)) for ops in unwiring_histories(3)]
+    jobs += [(EXH_CFG[0], EXH_CFG[1], ops, len(EXH_SETUP)) for ops in fault_histories(3)]
     if run_chunks(ctx, 'ops', jobs, 'search', 1000, compare=False):
         return
     run_chunks(ctx, 'random', random_jobs(ctx.fork('search'), ctx.n(300, 3000), 30), 'search', 250, compare=False)
